@@ -106,6 +106,76 @@ static void boxes(size_t ml, int lowpk) {
     }
     free(m); free(c); free(c2); free(out); free(zp); free(zc);
 }
+/* AEGIS-128L with associated data of 2^29 bytes and more (the bit counts in the final block then need more than 32 bits). TLC cannot
+ * absorb that much, so the state after the associated data is produced here by a plain absorber (one aesenc per state word, written
+ * from the specification's Update), which "aegis_absorb" records validate against Aegis.tla on short data; for the long data TLC
+ * continues from that state: message, final block with the lengths, tag.  The data is a read-only sparse mapping (zero pages). */
+#if defined(__x86_64__)
+#include <immintrin.h>
+__attribute__((target("aes,sse2"))) static void ag_update(__m128i S[8], __m128i m0, __m128i m1) {
+    __m128i t7 = S[7];
+    S[7] = _mm_aesenc_si128(S[6], S[7]); S[6] = _mm_aesenc_si128(S[5], S[6]); S[5] = _mm_aesenc_si128(S[4], S[5]); S[4] = _mm_aesenc_si128(S[3], _mm_xor_si128(S[4], m1));
+    S[3] = _mm_aesenc_si128(S[2], S[3]); S[2] = _mm_aesenc_si128(S[1], S[2]); S[1] = _mm_aesenc_si128(S[0], S[1]); S[0] = _mm_aesenc_si128(t7, _mm_xor_si128(S[0], m0));
+}
+__attribute__((target("aes,sse2"))) static void ag_absorb(unsigned char out[8][16], const unsigned char k[16], const unsigned char n[16], const unsigned char *ad, size_t adlen) {
+    static const unsigned char C0[16] = { 0, 1, 1, 2, 3, 5, 8, 13, 21, 34, 55, 89, 144, 233, 121, 98 }, C1[16] = { 219, 61, 24, 85, 109, 194, 47, 241, 32, 17, 49, 66, 115, 181, 40, 221 };
+    __m128i K = _mm_loadu_si128((const __m128i *) k), N = _mm_loadu_si128((const __m128i *) n), c0 = _mm_loadu_si128((const __m128i *) C0), c1 = _mm_loadu_si128((const __m128i *) C1), S[8];
+    S[0] = _mm_xor_si128(K, N); S[1] = c1; S[2] = c0; S[3] = c1; S[4] = _mm_xor_si128(K, N); S[5] = _mm_xor_si128(K, c0); S[6] = _mm_xor_si128(K, c1); S[7] = _mm_xor_si128(K, c0);
+    for (int i = 0; i < 10; i++) ag_update(S, N, K);
+    size_t i = 0; for (; i + 32 <= adlen; i += 32) ag_update(S, _mm_loadu_si128((const __m128i *) (ad + i)), _mm_loadu_si128((const __m128i *) (ad + i + 16)));
+    if (i < adlen) { unsigned char pad[32] = { 0 }; memcpy(pad, ad + i, adlen - i); ag_update(S, _mm_loadu_si128((const __m128i *) pad), _mm_loadu_si128((const __m128i *) (pad + 16))); }
+    for (int j = 0; j < 8; j++) _mm_storeu_si128((__m128i *) out[j], S[j]);
+}
+__attribute__((target("aes,sse2"))) static void ag256_update(__m128i S[6], __m128i m) {
+    __m128i t5 = S[5];
+    S[5] = _mm_aesenc_si128(S[4], S[5]); S[4] = _mm_aesenc_si128(S[3], S[4]); S[3] = _mm_aesenc_si128(S[2], S[3]); S[2] = _mm_aesenc_si128(S[1], S[2]);
+    S[1] = _mm_aesenc_si128(S[0], S[1]); S[0] = _mm_aesenc_si128(t5, _mm_xor_si128(S[0], m));
+}
+__attribute__((target("aes,sse2"))) static void ag256_absorb(unsigned char out[8][16], const unsigned char k[32], const unsigned char n[32], const unsigned char *ad, size_t adlen) {
+    static const unsigned char C0[16] = { 0, 1, 1, 2, 3, 5, 8, 13, 21, 34, 55, 89, 144, 233, 121, 98 }, C1[16] = { 219, 61, 24, 85, 109, 194, 47, 241, 32, 17, 49, 66, 115, 181, 40, 221 };
+    __m128i k0 = _mm_loadu_si128((const __m128i *) k), k1 = _mm_loadu_si128((const __m128i *) (k + 16)), n0 = _mm_loadu_si128((const __m128i *) n), n1 = _mm_loadu_si128((const __m128i *) (n + 16));
+    __m128i c0 = _mm_loadu_si128((const __m128i *) C0), c1 = _mm_loadu_si128((const __m128i *) C1), k0n0 = _mm_xor_si128(k0, n0), k1n1 = _mm_xor_si128(k1, n1), S[6];
+    S[0] = k0n0; S[1] = k1n1; S[2] = c1; S[3] = c0; S[4] = _mm_xor_si128(k0, c0); S[5] = _mm_xor_si128(k1, c1);
+    for (int i = 0; i < 4; i++) { ag256_update(S, k0); ag256_update(S, k1); ag256_update(S, k0n0); ag256_update(S, k1n1); }
+    size_t i = 0; for (; i + 16 <= adlen; i += 16) ag256_update(S, _mm_loadu_si128((const __m128i *) (ad + i)));
+    if (i < adlen) { unsigned char pad[16] = { 0 }; memcpy(pad, ad + i, adlen - i); ag256_update(S, _mm_loadu_si128((const __m128i *) pad)); }
+    for (int j = 0; j < 6; j++) _mm_storeu_si128((__m128i *) out[j], S[j]);
+}
+static int NSTATE = 8;
+static void emit_state(unsigned char S[8][16]) { fputs("\"S\":[", v_out); for (int j = 0; j < NSTATE; j++) { fputs(j ? ",[" : "[", v_out); for (int b = 0; b < 16; b++) fprintf(v_out, b ? ",%u" : "%u", S[j][b]); fputc(']', v_out); } fputc(']', v_out); }
+static void aegis_huge(int full) {
+    if (!sodium_runtime_has_aesni() || !sodium_runtime_has_avx()) return;
+    unsigned char k[16], n[16], S[8][16], adb[100], m[100], c[100 + 32], out[100]; vrng_bytes(&R, k, 16); vrng_bytes(&R, n, 16);
+    static const size_t SL[] = { 0, 1, 31, 32, 33, 64, 100 };
+    for (size_t i = 0; i < sizeof SL / sizeof SL[0]; i++) { vrng_bytes(&R, adb, SL[i]); ag_absorb(S, k, n, adb, SL[i]);
+        fprintf(v_out, "{\"op\":\"aegis_absorb\",\"alg\":\"aegis128l\","); v_emit_bytes("k", k, 16); fputc(',', v_out); v_emit_bytes("n", n, 16); fputc(',', v_out); v_emit_bytes("ad", adb, SL[i]); fputc(',', v_out); emit_state(S); fputs("}\n", v_out); }
+    size_t cap = ((size_t) 4 << 30) + 4096; unsigned char *big = (unsigned char *) mmap(NULL, cap, PROT_READ, MAP_PRIVATE | MAP_ANONYMOUS | MAP_NORESERVE, -1, 0);
+    if (big == MAP_FAILED) return;
+    static const unsigned long long HL[] = { 1ULL << 29, (1ULL << 29) + 45, (1ULL << 32) + 32, (1ULL << 31) + 7, (1ULL << 30) + (1ULL << 29), (1ULL << 32) - 1 };
+    for (int i = 0; i < (full ? 6 : 3); i++) { size_t adlen = (size_t) HL[i], ml = i % 2 ? 100 : 0; unsigned long long cl = 0, ol = 0; unsigned char l8[8];
+        vrng_bytes(&R, m, 100); for (int b = 0; b < 8; b++) l8[b] = (unsigned char) (HL[i] >> (8 * b));
+        int ret = crypto_aead_aegis128l_encrypt(c, &cl, m, ml, big, adlen, NULL, n, k);
+        int dec = crypto_aead_aegis128l_decrypt(out, &ol, NULL, c, cl, big, adlen, n, k); int dec_ok = dec == 0 && ol == ml && !memcmp(out, m, ml) && cl == ml + 32;
+        ag_absorb(S, k, n, big, adlen);
+        fprintf(v_out, "{\"op\":\"aegis_huge\",\"alg\":\"aegis128l\",\"ret\":%d,\"dec_ok\":%s,", ret, dec_ok ? "true" : "false"); v_emit_bytes("adlen8", l8, 8); fputc(',', v_out); v_emit_bytes("m", m, ml); fputc(',', v_out);
+        v_emit_bytes("out", c, ml + 32); fputc(',', v_out); emit_state(S); fputs("}\n", v_out); }
+    /* the same for AEGIS-256 (six state words, 16-byte blocks) */
+    { unsigned char k2[32], n2[32]; vrng_bytes(&R, k2, 32); vrng_bytes(&R, n2, 32); NSTATE = 6;
+      for (size_t i = 0; i < sizeof SL / sizeof SL[0]; i++) { vrng_bytes(&R, adb, SL[i]); ag256_absorb(S, k2, n2, adb, SL[i]);
+          fprintf(v_out, "{\"op\":\"aegis_absorb\",\"alg\":\"aegis256\","); v_emit_bytes("k", k2, 32); fputc(',', v_out); v_emit_bytes("n", n2, 32); fputc(',', v_out); v_emit_bytes("ad", adb, SL[i]); fputc(',', v_out); emit_state(S); fputs("}\n", v_out); }
+      for (int i = 0; i < (full ? 6 : 3); i++) { size_t adlen = (size_t) HL[i], ml = i % 2 ? 100 : 0; unsigned long long cl = 0, ol = 0; unsigned char l8[8];
+          vrng_bytes(&R, m, 100); for (int b = 0; b < 8; b++) l8[b] = (unsigned char) (HL[i] >> (8 * b));
+          int ret = crypto_aead_aegis256_encrypt(c, &cl, m, ml, big, adlen, NULL, n2, k2);
+          int dec = crypto_aead_aegis256_decrypt(out, &ol, NULL, c, cl, big, adlen, n2, k2); int dec_ok = dec == 0 && ol == ml && !memcmp(out, m, ml) && cl == ml + 32;
+          ag256_absorb(S, k2, n2, big, adlen);
+          fprintf(v_out, "{\"op\":\"aegis_huge\",\"alg\":\"aegis256\",\"ret\":%d,\"dec_ok\":%s,", ret, dec_ok ? "true" : "false"); v_emit_bytes("adlen8", l8, 8); fputc(',', v_out); v_emit_bytes("m", m, ml); fputc(',', v_out);
+          v_emit_bytes("out", c, ml + 32); fputc(',', v_out); emit_state(S); fputs("}\n", v_out); }
+      NSTATE = 8; }
+    munmap(big, cap);
+}
+#else
+static void aegis_huge(int full) { (void) full; }
+#endif
 int main(int argc, char **argv) {
     if (argc < 4) return 3;
     vrng_seed(&R, strtoull(argv[1], NULL, 10), 1); int full = !strcmp(argv[2], "full");
@@ -121,5 +191,6 @@ int main(int argc, char **argv) {
         for (size_t al = 0; al <= 300; al++) { one(0, al, 1); one(33, al, 1); one(200, al, al % 4 == 0); }
         for (size_t ml = 0; ml <= 300; ml += 7) boxes(ml, 0); boxes(5, 1); boxes(0, 1);
     }
+    aegis_huge(full);
     v_close(); return 0;
 }
